@@ -165,3 +165,19 @@ Qed.
 (* ---------- Delete(ids...) on the directory ---------- *)
 Lemma disk_delete_structure_ok : disk_delete_stops_with_the_error = true.
 Proof. reflexivity. Qed.
+
+(* ---------- List over file names ---------- *)
+(* files written by Set are named str(id) and parse back (uuid.Parse (uuid.String id) = id, assumed): the listing of a
+   directory that holds exactly the files of the IDs [ids] is [ids] - the zero ID (nil UUID) included *)
+Lemma list_names_exact : forall (name : Type) (str : N -> name) (parse : name -> option N),
+  (forall i, parse (str i) = Some i) ->
+  forall ids, list_names parse list_yields_every_file (map str ids) = ids.
+Proof.
+  intros name str parse Hrt ids. unfold list_names. change list_yields_every_file with true. cbv iota.
+  rewrite map_map. induction ids as [|i t IH]; [reflexivity|]. cbn [map]. rewrite Hrt, IH. reflexivity.
+Qed.
+
+(* if entries equal to the zero ID were dropped, a stored ID would be missing *)
+Lemma list_names_filter_refuted : exists (ids : list N),
+  list_names (fun n : N => Some n) false (map (fun i => i) ids) <> ids.
+Proof. exists [0%N; 5%N]. vm_compute. discriminate. Qed.
